@@ -73,7 +73,7 @@ NEEDS = {
  "C10d": "(helper: Circuit.add redefinition as input/constant removes the node first) a circuit whose gates were inserted before their input/constant fan-ins",
  "C11d": "(helper: utils.int_to_bin returning () for width 0) props.sensitivity on a functionally constant node with exactly one startpoint",
  "C16d": "(helper: Circuit.remove cascading from a 'pin' recognised by name only) a dead ordinary gate whose name sits under a blackbox instance's prefix (ff0.q_n)",
- "C18d": "",
+ "C18d": "(helper: Circuit.disconnect testing `u in us` with a single name, i.e. a substring test) a cut feedback node whose name contains the name of another driver of one of its loads (n12 / n1)",
  "C19c": "influence/avg_sensitivity with supergates=True and a peer failure in the middle (solver raises, pysat unimportable, approxmc missing or exit 1)",
  "C19": "tx.subcircuit asked for ALL nodes of a blackbox-free circuit (directly or through sensitization_transform / influence with an endpoint whose cone is the whole circuit), then any edit or the internal set_output",
  "C01": "two parity gates with >= 3 inputs sharing two operands that a hash order pairs in opposite order in the same chain stage (2 of 300 PYTHONHASHSEED values for a fixed circuit)",
